@@ -60,6 +60,21 @@ CLAIMED["C08"] = ("model_checking",
   "All streams of <=4 (thorough 5) rows over the keys {a,b,c,absent} with distinguishable tied rows, and every stream of <=3 rows repeated cyclically to 17 and 40 rows, under 12 pipelines (0..3 sort keys with ties in both directions, unique, filter, split, sort on a selected name) x {rows, --group-by, --merge} x S in 0..3 (thorough 0..6) x T in {absent, 0..3} (thorough 0..6): the output must be exactly rows S..S+T-1 of the implementation's unlimited result (or the single collection built from exactly those rows), and must equal the reference pipeline.",
   "trusted: the reference order on strings and small integers. Sort keys are strings and small integers only (the order itself is C07's subject).",
   "DESIGN.md §5 C08")
+CLAIMED["C07"] = ("model_checking",
+  "exhaustive comparison table over a typed universe with the order axioms checked on all pairs and triples; bounded-exhaustive enumeration of row histories x key/direction configurations on jawk::go against a reference stable multi-key sort; exhaustive small lists/objects through every sorting function",
+  "The six comparison functions are tabulated over all 86x86 pairs (all types, equal-by-value spellings) and must form one total order consistent with = and with the documented type order; --sort-by is run on all streams of <=5 (thorough 6) rows over 5 keys (ties made visible by ids, absent keys, two types) under 17 key/direction configurations, on all streams of <=4 (thorough 5) rows over 14 keys of all types, and on long streams (>11 distinct keys, >8 rows per key); sort, sort_unique, sort_by, sort_by_keys, sort_by_values(_by) on all lists/objects of <=5 (thorough 6) elements over 8 values and on 20..100-element inputs with ties.",
+  "Among two unequal objects the documentation fixes no order: only the axioms are required there. Numbers are restricted to |n| < 2^53 or non-integral; -0 is outside (stated domain).",
+  "DESIGN.md §5 C07")
+CLAIMED["C09"] = ("model_checking",
+  "bounded-exhaustive enumeration of row histories x upstream pipelines x {group-by, merge} x {json, text} on jawk::go; differential against the rows the ungrouped pipeline prints plus lock-step comparison with a reference pipeline",
+  "All streams of <=4 (thorough 5) rows over the group keys {a, b, empty string, non-ASCII, number, null, absent}, including the empty stream and streams where no row survives, and cyclic streams of 17 and 40 rows, under 10 upstream pipelines (select, filter, unique, sorts, skip/take, split, take 0): exactly one value must be printed, equal to the documented grouping (first-seen key order, arrival order inside a group, non-string and absent keys dropped) of the rows the same pipeline prints without grouping.",
+  "Text-mode output is read back as one JSON value per line (its field formatting is C15's subject).",
+  "DESIGN.md §5 C09")
+CLAIMED["C10"] = ("model_checking",
+  "exhaustive equality table through the real = function, then bounded-exhaustive enumeration of value histories with and without selections on jawk::go; the --unique output is compared with the plain output minus later duplicates under that table",
+  "The implementation's = is tabulated over all ordered pairs of a 28-text universe (zero and one in several spellings, escaped strings, nested equal collections, near misses) and must be an equivalence that agrees with reference equality; with --unique, all streams of <=3 (thorough 4) values over the universe and <=5 (thorough 6) over an 8-text core, all streams of <=4 (thorough 5) records through one and two selections (present / null / absent members), and growth families of up to 57 distinct values in three spellings must print exactly the first occurrences.",
+  "-0 and member-order permutations are outside (the property excludes them).",
+  "DESIGN.md §5 C10")
 NOT_YET = {}
 props=[json.loads(l) for l in open('/verif/properties.jsonl')]
 checks=[]; na=[]
